@@ -217,5 +217,78 @@ def replay(d):
     return bool(hit), hit[0].message if hit else 'not reproduced'
 
 
+def exercise_library():
+    """Uses the rest of the library the way an application does (deals, an auction, a played board, file round trips, a few
+    messages) so that anything those calls leave behind in shared state is in place."""
+    import io
+    import datetime
+    from bridge_env import BiddingPhase, Hands, PlayingPhaseWithHands
+    from bridge_env.data_handler.json_handler.parser import JsonParser
+    from bridge_env.data_handler.json_handler.writer import JsonBoardSettingWriter
+    from bridge_env.data_handler.pbn_handler.parser import PbnParser
+    from bridge_env.data_handler.pbn_handler.writer import PbnWriter, Scoring
+    from bridge_env.score import calc_score, score_to_imp
+    for _ in range(3):
+        h = Hands.generate_random_hands()
+        Hands.convert_pbn(h.to_pbn(Player.E))
+        Hands.convert_binary(h.to_binary())
+        Hands.convert_np_binary(h.to_np_binary())
+        bp = BiddingPhase(dealer=Player.S, vul=Vul.BOTH)
+        for b in (Bid.H1, Bid.X, Bid.XX, Bid.S1, Bid.Pass, Bid.Pass, Bid.Pass):
+            bp.take_bid(b)
+        con = bp.contract()
+        pp = PlayingPhaseWithHands(con, h)
+        while not pp.has_done():
+            pl = pp.active_player
+            pp.play_card_by_player(sorted(pp.current_available_cards_in_hand(pl))[0], pl)
+        calc_score(con, pp.taken_tricks[con.declarer.pair])
+        score_to_imp(420, -50)
+        buf = io.StringIO()
+        with JsonBoardSettingWriter(buf) as w:
+            w.write('1', Player.N, Hands.generate_random_hands(), Vul.EW)
+        JsonParser().parse_board_settings(io.StringIO(buf.getvalue()))
+        buf = io.StringIO()
+        PbnWriter(buf).write_board_result('e', 's', datetime.date(2020, 1, 1), 1, 'w', 'n', 'e', 's', Player.W, Hands.generate_random_hands(), Scoring.IMP, con, 7)
+        PbnParser().parse_board_settings(io.StringIO(buf.getvalue()))
+
+
+_first_run = run
+
+
+def run(tier, seed, workers):  # noqa: F811
+    """The complete enumeration twice: in the state in which the interpreter starts, and again after the rest of the library has been
+    used (a conversion table that another call has disturbed, a registration that only some import performs)."""
+    res = _first_run(tier, seed, workers)
+    try:
+        exercise_library()
+    except Exception as e:  # noqa
+        from ..core import Violation
+        res.violations = list(res.violations) + [Violation('exercise:raise', f'ordinary use of the library raised {type(e).__name__}: {e}', {'kind': 'exercise'})]
+        return res
+    res2 = _first_run(tier, seed, workers)
+    seen = {v.key for v in res.violations}
+    for v in res2.violations:
+        if v.key not in seen:
+            v.key = 'after-use:' + v.key
+            v.message = 'after the library had been used (random deals, an auction, a played board, file round trips): ' + v.message
+            v.replay = dict(v.replay, after_use=True)
+            res.violations.append(v)
+    for k in ('evaluations', 'transitions', 'traces_validated_against_impl'):
+        if isinstance(res.coverage.get(k), int) and isinstance(res2.coverage.get(k), int):
+            res.coverage[k] += res2.coverage[k]
+    res.coverage['passes'] = 'pristine interpreter state, then again after ordinary use of the rest of the library'
+    res.coverage['rule'] = res.coverage.get('rule', '') + ' | the whole enumeration is run twice: in the state the interpreter starts in, and after random deals, an auction, a played board, JSON and PBN round trips'
+    return res
+
+
+_seq_replay = replay
+
+
+def replay(d):  # noqa: F811
+    if d.get('after_use'):
+        exercise_library()
+    return _seq_replay(d)
+
+
 from ..conc import driver as _conc  # noqa: E402
 _conc.wrap(globals(), 'C15')
